@@ -15,6 +15,8 @@ package main
 //     in a CHILD process because Go's `fatal error: concurrent map …` cannot be recovered:
 //       c19-hammer   one real engine hit from several goroutines, every emitted confirm checked, sequential replay
 //       c19-maprace  the store's unlocked public reader GetActDatabase against the engine's writers
+//       c19-writerlag  schedules of store requests against the sync / done goroutines (c19_writerlag.go); the ONLY
+//                    child whose schedules are also op lines (`lagq`, `lagapi`) answered by the Lean model
 //       thorough tier: c19-hammer built with -race, DATA RACE reports canonicalised (c19_race.go).
 //     A timeout / a failed -race build is an inconclusive sample (counted), never a failure.
 //  `hx c19-genfacts -out DIR` regenerates LockFacts.lean (by hand, after an intended change of the facts).
@@ -52,6 +54,9 @@ func c19(c *Ctx) {
 		fmt.Sscan(v, &rounds)
 	}
 	if rounds > 0 {
+		// schedules of the request threads against the store's sync / done goroutines: deterministic, its op lines are
+		// model-checked; first, so that a broken store layer is reported with a schedule rather than with a hammer round
+		c19WriterLag(c)
 		c19RunHammer(c, os.Args[0], "c19-hammer", "plain", rounds, c19ChildLimit())
 		c19RunHammer(c, os.Args[0], "c19-maprace", "maprace", 3, c19ChildLimit())
 		cr := 6
